@@ -5,6 +5,8 @@
    table /sys/fs/bpf/<if>/programs and the XDP attachment.  Only operations on
    shared objects are steps; everything private to a process happens in between. *)
 From Verif Require Export Lib.Base Lib.ListX.
+From Coq Require Import MSets.MSetRBT Structures.OrdersEx.
+Module ZS := MSetRBT.Make Z_as_OT.
 
 (* program counters *)
 Inductive pc :=
@@ -119,21 +121,28 @@ Definition enc (s : st) : list Z :=
   concat (map (fun p => [pc_code (p_pc p); p_eth p; p_table p]) (procs s)).
 Fixpoint list_eqb (a b : list Z) : bool :=
   match a, b with [], [] => true | x :: a', y :: b' => (x =? y) && list_eqb a' b' | _, _ => false end.
-Definition seen (s : st) (l : list st) : bool := existsb (fun t => list_eqb (enc s) (enc t)) l.
+(* one number per state (every component is in [-1, 30]) *)
+Definition code (s : st) : Z := fold_left (fun acc x => acc * 32 + (x + 1)) (enc s) 1.
 
-Fixpoint explore (fuel : nat) (choices : list Z) (frontier visited : list st) : list st :=
+(* breadth-first: `visited` holds the codes of all states found so far *)
+Fixpoint explore (fuel : nat) (choices : list Z) (frontier : list st) (visited : ZS.t) (all : list st) : list st :=
   match fuel with
-  | O => visited
+  | O => all
   | S f =>
       match frontier with
-      | [] => visited
+      | [] => all
       | _ =>
-          let new := fold_left (fun acc s => fold_left (fun acc' s' => if seen s' (acc' ++ visited) then acc' else s' :: acc') (successors choices s) acc)
-                               frontier [] in
-          explore f choices new (new ++ visited)
+          let '(new, vis) :=
+            fold_left (fun acc s =>
+                         fold_left (fun acc' s' => let e := code s' in
+                                                   if ZS.mem e (snd acc') then acc' else (s' :: fst acc', ZS.add e (snd acc')))
+                                   (successors choices s) acc)
+                      frontier ([], visited) in
+          explore f choices new vis (new ++ all)
       end
   end.
-Definition reach (n : nat) (choices : list Z) : list st := explore 200 choices [init n] [init n].
+Definition reach (n : nat) (choices : list Z) : list st := explore 400 choices [init n] (ZS.singleton (code (init n))) [init n].
+Definition codes (l : list st) : ZS.t := fold_left (fun acc s => ZS.add (code s) acc) l ZS.empty.
 
 (* run a schedule: (process, index of the successor to take) *)
 Fixpoint run_sched (choices : list Z) (s : st) (sched : list (nat * nat)) : st :=
